@@ -96,6 +96,9 @@ def gen(c, chunkings):
                         case("trunc:%d" % cut, b=body[:len(body) - cut])
                 for extra in (0, 255):
                     case("extend:%d" % extra, b=body + bytes([extra]))
+                # the tag (last tl bytes of the body) changed in ways that cancel in a byte sum / XOR fold / order-insensitive or shortened comparison
+                for nm, tx in CL.cancelling(body[len(body) - tl:]):
+                    case("tag:%s" % nm, b=body[:len(body) - tl] + tx)
     return out
 
 
